@@ -17,7 +17,7 @@ def St.comp (s : St) : Comp → CVal
   | .tmpl => .tmpl s.tmpl
   | .exam => .optNat s.exam
   | .thr => .nat s.thr
-  | .rndPlace => .notModelled
+  | .rndPlace => .bool s.rnd
   | .zoom => .optNat s.zoom
   | .useCache => .bool s.useCache
   | .dsFlag => .bool s.dsBool
@@ -57,6 +57,8 @@ def rowName : Op → Option String
   | .setThr _ => some "set_attenuation_threshold"
   | .setCacheEnabled _ => some "set_cache_enabled"
   | .setUseCache _ => some "set_use_cache"
+  | .setRndPlace _ => some "set_randomly_place_scatter_points"
+  | .setTemplateFile _ _ => some "set_template_proj_data_info(filename)"
   | .setDsBool _ => some "set_downsample_scanner_bool"
   | .setDsRings _ => some "set_num_downsample_scanner_rings"
   | .setDsDets _ => some "set_num_downsample_scanner_dets"
@@ -80,7 +82,7 @@ def Faithful (W : World) (s : St) (op : Op) (f : SetterRow) : Prop :=
 
 macro "unfold_setters" : tactic =>
   `(tactic| simp_all [St.comp, St.datum, DVal.isCleared, step, setTemplate, setTemplateVal, setActivity, setDensity, setSpImage,
-      sampleScatterPoints, setActivityInPlace, setDensityInPlace, setSpImageInPlace, mutateActivity, mutateDensity, setExam, setZoom, setThr, setCacheEnabled, setUseCache, setDsBool, setDsRings, setDsDets,
+      sampleScatterPoints, setActivityInPlace, setDensityInPlace, setSpImageInPlace, mutateActivity, mutateDensity, setExam, setZoom, setThr, setCacheEnabled, setUseCache, setRndPlace, setTemplateFile, setDsBool, setDsRings, setDsDets,
       downsampleScanner, downsampleScannerCore, downsampleSp])
 
 macro "frame_c" : tactic => `(tactic| (intro c hc; cases c <;> unfold_setters))
@@ -121,6 +123,8 @@ theorem table_faithful (W : World) (s : St) (op : Op) (f : SetterRow) (hf : rowO
   case setZoom z => changed
   case setThr t => changed
   case setCacheEnabled b => changed
+  case setRndPlace b => changed
+  case setTemplateFile e t => changed
   case setUseCache b =>
     by_cases h : b = s.useCache
     · exact faithful_of_unchanged W s _ _ (by simp [step, setUseCache, h])
